@@ -51,6 +51,11 @@ type Case struct {
 	NilPH string `json:"nil_ph,omitempty"`
 	// PHDelayUs makes the panic handler take this long (a slow reporter).
 	PHDelayUs int `json:"ph_delay_us,omitempty"`
+	// PHResets (no asynchronous handler in the case, so nothing runs
+	// concurrently): every time it is called the panic handler installs
+	// itself again with SetPanicHandler - a handler that reconfigures the bus
+	// it reports for.  Nothing changes by that.
+	PHResets bool `json:"ph_resets,omitempty"`
 	// CancelLast: every publish carries a context of its own, and the last
 	// handler in subscription order - if it is synchronous and panics, and
 	// no handler is asynchronous - cancels that context just before it
@@ -167,8 +172,14 @@ func run(c *Case) *vkit.Outcome {
 	var ph []phCall
 
 	var opts []eventbus.Option
+	var busRef *eventbus.EventBus
+	var thePH eventbus.PanicHandler
+	noAsync := true
+	for _, h := range c.Handlers {
+		noAsync = noAsync && !h.Async
+	}
 	if c.PanicHandler {
-		opts = append(opts, eventbus.WithPanicHandler(func(event any, ht reflect.Type, v any) {
+		thePH = func(event any, ht reflect.Type, v any) {
 			call := phCall{Val: fmt.Sprintf("%T:%v", v, v)}
 			if e, ok := event.(Ev); ok {
 				call.EvID = e.ID
@@ -190,7 +201,11 @@ func run(c *Case) *vkit.Outcome {
 			if c.PHDelayUs > 0 {
 				time.Sleep(time.Duration(c.PHDelayUs) * time.Microsecond)
 			}
-		}))
+			if c.PHResets && noAsync && busRef != nil {
+				busRef.SetPanicHandler(thePH)
+			}
+		}
+		opts = append(opts, eventbus.WithPanicHandler(thePH))
 	}
 	if !c.PanicHandler && c.NilPH == "option" {
 		opts = append(opts, eventbus.WithPanicHandler(nil))
@@ -206,6 +221,7 @@ func run(c *Case) *vkit.Outcome {
 		opts = append(opts, eventbus.WithStore(eventbus.NewMemoryStore()))
 	}
 	bus := eventbus.New(opts...)
+	busRef = bus
 	if (!c.PanicHandler && c.NilPH == "setter") || (c.PanicHandler && c.NilPH == "unset") {
 		bus.SetPanicHandler(nil)
 	}
